@@ -586,7 +586,13 @@ def r12(p, rep):
                     if isinstance(other, ast.Lambda) and other is not scope and len(other.args.args) == 1:
                         pred = (other.args.args[0].arg, other.body)
                     elif isinstance(other, ast.Name) and other.id != cb_name:
-                        g = next((x for x in ast.walk(m.tree) if isinstance(x, ast.FunctionDef) and x.name == other.id and len(x.args.args) == 1), None)
+                        # the definition visible at the call: a nested def of an enclosing function first, then the module
+                        g = None
+                        anc = getattr(call, "_parent", None)
+                        while anc is not None and g is None:
+                            if isinstance(anc, (ast.FunctionDef, ast.Module)):
+                                g = next((x for x in anc.body if isinstance(x, ast.FunctionDef) and x.name == other.id and len(x.args.args) == 1), None)
+                            anc = getattr(anc, "_parent", None)
                         if g is not None:
                             rets = [r.value for r in ast.walk(g) if isinstance(r, ast.Return) and r.value is not None]
                             if len(rets) == 1:
